@@ -21,7 +21,7 @@ M = [
     ("C04-zero-length-accepted", "C04", "passage-protocol/src/connection.rs", "if length <= 0 || length > self.max_packet_length {", "if length < 0 || length > self.max_packet_length {"),
     ("C05-decrypt-whole-buffer", "C05", "passage-protocol/src/crypto/stream.rs", "buf.filled_mut()[cursor..]", "buf.filled_mut()[..]"),
     ("C07-interval-25s", "C07", "passage-protocol/src/connection.rs", "pub const KEEP_ALIVE_INTERVAL: u64 = 16;", "pub const KEEP_ALIVE_INTERVAL: u64 = 25;"),
-    ("C07-second-keep-alive-instead-of-disconnect", "C07", "passage-protocol/src/connection.rs", "                    if self.keep_alive_id.is_some() {", "                    if false && self.keep_alive_id.is_some() {"),
+    ("C07-second-keep-alive-instead-of-disconnect", "C07", "passage-protocol/src/connection.rs", "                    if self.keep_alive_id.is_some() {", "                    if self.keep_alive_id.is_some() && self.max_packet_length < 0 {"),
     ("C08-outbound-remainder-dropped", "C08", "passage-protocol/src/connection.rs", "self.outbound.drain(..written);", "self.outbound.clear();"),
     ("C08-inbound-restarted-on-tick", "C08", "passage-protocol/src/connection.rs", "                    if !keep_alive { continue; }", "                    if !keep_alive { self.inbound.clear(); continue; }"),
     ("C09-transfer-port-i16", "C09", "passage-packets/src/configuration.rs", "buffer.write_varint(VarInt::from(self.port)).await?;", "buffer.write_varint(VarInt::from(self.port as i16)).await?;"),
